@@ -12,7 +12,7 @@ PROPERTY = 'C02'
 
 RULE = ('Typed random past-time STL grammar (no future operator; reuse of already drawn sub-formulas raised to 0.3 so that '
         'duplicate printed names over stateful nodes are common) x random traces of length 1..16 fed one update() per sample with '
-        'exactly the free variables (lanes main, dup, deep, and long: 16-48 samples with bounds up to 20; one trace in five uses very few distinct values so that exact zeros and ties occur). Lane giant: once/historically with windows of 200..1100 samples (around 256, 512, 1024), since up to 300, lower bound 0..300, mostly flat traces with isolated extreme samples. Oracle: update_i == R-dt(spec, w)[i] (reference) and == rtamt offline evaluate(w)[i] for every i. '
+        'exactly the free variables (lanes main, dup, deep, and long: 16-48 samples with bounds up to 20; one trace in five uses very few distinct values so that exact zeros and ties occur). Lane bigint: integer samples of the order of 1.7e18 whose small differences are compared with constants (reference in exact integer arithmetic). Lane giant: once/historically with windows of 200..1100 samples (around 256, 512, 1024), since up to 300, lower bound 0..300, mostly flat traces with isolated extreme samples. Oracle: update_i == R-dt(spec, w)[i] (reference) and == rtamt offline evaluate(w)[i] for every i. '
         'Non-trivial = formula has a stateful operator (prev, s_prev, rise, fall, once, historically, since, bounded or not) and '
         'n >= 2; distinct = distinct (formula text, trace) digests.')
 
@@ -148,7 +148,32 @@ def strat_verylong_(draw, tier):
     return {'formula': f, 'vars': vs, 'trace': tr}
 
 
+def check_bigint(case):
+    """Integer samples beyond 2**53, one update per sample, against the reference in exact integer arithmetic."""
+    from .. import refsem
+    f = from_json(case['formula'])
+    vs = list(case['vars'])
+    tr = {v: [int(x) for x in case['trace'][v]] for v in vs}
+    n = len(tr[vs[0]])
+    labels = feature_labels(f, n) + ['integer-samples>2^53']
+    refsem.KEEP_INTEGERS = True
+    try:
+        ref = dt(f, tr, n)
+    except Undefined:
+        return DISCARD('undefined', labels)
+    finally:
+        refsem.KEEP_INTEGERS = False
+    o = run_dt_on('out = ' + show(f), vs, tr)
+    if o[0] != 'ok':
+        return FAIL('exc:%s@%s' % (o[1], o[4]), 'spec: out = %s\ntrace (integers): %s\nraised %s: %s' % (show(f), tr, o[1], o[3]), labels)
+    if len(o[1]) != n or any(a != b for a, b in zip(o[1], ref)):
+        return FAIL('mismatch:integer-samples', 'spec: out = %s\ntrace (Python integers): %s\nupdates:   %r\nreference (exact integer arithmetic): %r' % (
+            show(f), tr, o[1], ref), labels)
+    return PASS(n >= 2, labels)
+
+
 LANES = [
+    Lane('bigint', lambda tier: __import__('vlib.common', fromlist=['bigint_cases']).bigint_cases(past_only=True), check_bigint, 500, 5000, None),
     Lane('giant', lambda tier: giant_cases(F.TUN_PAST, ('since',)), check, 60, 600, None),
     Lane('verylong', lambda tier: strat_verylong_(tier), check, 150, 2000, std_candidates),
     Lane('near_twins', lambda tier: strat_near_twins_(tier), check, 2000, 30000, std_candidates),
